@@ -28,6 +28,13 @@ def setup():
     def fbact(self, tag="", **kw):
         HOOKS["acts"][tag](self.store)
 
+    @doing.doify('FbEnt')
+    def fbent(self, **kw):
+        """`do fb ent` in the enter context of a frame: reports that this framer entered a frame now"""
+        hook = HOOKS.get("ent")
+        if hook:
+            hook(self._act.frame.framer.name)
+
     @doing.doify('FbRef')
     def fbref(self, **kw):
         """a deed whose only purpose is to own ioinit shares (`do fb ref via … per …`)"""
@@ -86,7 +93,7 @@ def build(text, period, name="case.flo"):
     return sk if ok else None
 
 
-def run(sk, obs=None, acts=None, nticks=None):
+def run(sk, obs=None, acts=None, nticks=None, ent=None):
     """run the skedder; after `nticks` calls of the observer deed every tasker is asked to stop
     (what `bid stop all` does: tasker.desire = STOP), independent of any framer clock"""
     from ioflo.base.globaling import STOP
@@ -101,6 +108,7 @@ def run(sk, obs=None, acts=None, nticks=None):
                 for tasker in house.taskables:
                     tasker.desire = STOP
     HOOKS["obs"] = hook
+    HOOKS["ent"] = ent
     HOOKS["acts"] = acts or {}
     with time_limit(60):
         sk.run()
